@@ -63,7 +63,10 @@ NSELCTX = {"quick": 60, "thorough": 1500}
 NGROUP_FLOWS = {"quick": 10, "thorough": 300}     # flows per group_by/merge assignment
 
 STRS = ["a", "b", "a.b", "a.c.d", "b.x", "a.b.c", "zz", "a.5"]
-CLSS = ["int", "str", "float", "tuple", "list", "Marker", "CallableCls", "dict"]
+CLSS = ["int", "str", "float", "tuple", "list", "Marker", "CallableCls", "dict",
+        # classes whose metaclass is not type: ABCs, a user ABC hierarchy, an Enum, a custom
+        # metaclass - classes like any other (isinstance of the data)
+        "Real", "Sized", "AbcEvent", "Color", "MetaMade"]
 FNS_TOTAL = ["even", "pos", "true", "false", "hasctx"]
 FNS_RAISING = ["raise_value", "raise_on_str", "attr", "zerodiv", "ctxkey",
                # lena's own exception classes and a control-flow one: "an exception inside any
@@ -86,6 +89,34 @@ class CallableCls(object):
 
     def __repr__(self):
         return "CallableCls()"
+
+
+import abc as _abc
+import enum as _enum
+
+
+class AbcEvent(_abc.ABC):
+    """A user's abstract base of event classes; instantiable subclasses take one argument."""
+
+    def __init__(self, payload):
+        self.payload = payload
+
+
+class AbcEventSub(AbcEvent):
+    def __repr__(self):
+        return "AbcEventSub(%r)" % (self.payload,)
+
+
+class Color(_enum.Enum):
+    RED = 1
+    BLUE = 2
+
+
+class _Meta(type):
+    pass
+
+
+MetaMade = _Meta("MetaMade", (object,), {"__init__": lambda self, v=None: None})
 
 
 class SubInt(int):
@@ -120,10 +151,11 @@ def rand_values(rng):
     base = R.rand_ctx(rng, 3)
     vals = [[5, None], [0, None], ["s", None], [2.5, None], [["T", 1, 2, 3], None],
             [["L", 1], None], [["M"], None], [["C"], None], [["T", 1, 2], None],
-            [True, None], [["I", 7], None]]
+            [True, None], [["I", 7], None], [["E", 1], None], [["EN"], None], [["MM"], None]]
     for _ in range(5):
         c = R.rand_ctx(rng, 3) if rng.random() < 0.5 else base
-        vals.append([rng.choice([4, 7, 0, "s", 2.5, ["L", 1], ["M"], ["T", 1, 2], ["I", 3]]),
+        vals.append([rng.choice([4, 7, 0, "s", 2.5, ["L", 1], ["M"], ["T", 1, 2], ["I", 3],
+                                 ["E", 2], ["EN"], ["MM"]]),
                      R.cp(c)])
     return vals
 
@@ -330,8 +362,12 @@ def make_fn(name):
 
 
 def make_cls(name):
+    import collections.abc
+    import numbers
     return {"int": int, "str": str, "float": float, "tuple": tuple, "list": list, "dict": dict,
-            "Marker": Marker, "CallableCls": CallableCls}[name]
+            "Marker": Marker, "CallableCls": CallableCls, "Real": numbers.Real,
+            "Sized": collections.abc.Sized, "AbcEvent": AbcEvent, "Color": Color,
+            "MetaMade": MetaMade}[name]
 
 
 def make_pred(name):
@@ -377,6 +413,12 @@ def make_value(v):
             data = CallableCls()
         elif tag == "I":
             data = SubInt(data[1])
+        elif tag == "E":
+            data = AbcEventSub(data[1])
+        elif tag == "EN":
+            data = Color.RED
+        elif tag == "MM":
+            data = MetaMade()
     if ctx is None:
         return data
     return (data, R.cp(ctx))
@@ -715,6 +757,26 @@ def run_sel(r, obs, ctl):
     obs.nontrivial = len(seen) >= 2
 
 
+def _to_dd(v):
+    import collections
+    if isinstance(v, dict):
+        d = collections.defaultdict(dict)
+        for k, x in v.items():
+            d[k] = _to_dd(x)
+        return d
+    if isinstance(v, list):
+        return [_to_dd(x) for x in v]
+    return v
+
+
+def _plain(v):
+    if isinstance(v, dict):
+        return {k: _plain(x) for k, x in v.items()}
+    if isinstance(v, list):
+        return [_plain(x) for x in v]
+    return v
+
+
 def run_selctx(r, obs, ctl):
     import lena.flow
     seen = set()
@@ -737,6 +799,19 @@ def run_selctx(r, obs, ctl):
                             ctl.fail(selctx_mech(node, value_r, exp, got),
                                 "SelectContext(%r, %s, raise_on_error=%r) on context %r -> %r, "
                                 "expected %r" % (key_notation(form, p), pred, roe, ctx, got, exp))
+                        if form == "str" and roe:
+                            # the same context as a tree of dict subclasses with __missing__
+                            # (collections.defaultdict): absent stays absent, nothing is created
+                            ddc = _to_dd(ctx)
+                            gotd = outcome(lambda: sc((1, ddc)))
+                            obs.count("selectcontext_evaluations_on_defaultdict")
+                            ctl.evals += 1
+                            if gotd != exp or _plain(ddc) != ctx:
+                                ctl.fail("selectcontext-wrong-result:dict-subclass-with-__missing__",
+                                         "SelectContext(%r, %s) on the defaultdict tree of %r -> %r "
+                                         "(context afterwards %r), on the plain dictionary %r"
+                                         % (key_notation(form, p), pred, ctx, gotd, _plain(ddc),
+                                            exp))
     obs.nontrivial = len(seen) >= 2
     # keys that contain a dot: nameable by a list of keys (and a one-key-per-level dictionary),
     # where they are one component - never split again
@@ -890,3 +965,6 @@ def run_group_default(r, obs, ctl):
 
 
 RULE += (' group_by / merge keys are listed in enumerated, reversed and shuffled order; raising leaves also raise LenaStopFill, LenaKeyError and RuntimeError.')
+RULE += (' Class leaves also include classes whose metaclass is not type (numbers.Real, '
+         'collections.abc.Sized, a user abc.ABC hierarchy, an Enum, a custom metaclass); '
+         'SelectContext is also applied to contexts that are trees of collections.defaultdict.')
